@@ -16,6 +16,13 @@ func BSONUnmarshal(in []byte, out interface{}) error {
 	if !vsym.BlobGet(in, out) {
 		return errCodec
 	}
+	// mgo's decoder hands out []byte fields as sub-slices of its input. When
+	// the input came from a bolt transaction (see BoltBucketGet) those bytes
+	// are only valid until it ends: remember them so that the end of the
+	// transaction can invalidate them.
+	if boltOpenTxs > 0 {
+		boltAliased = append(boltAliased, vsym.ByteSlicesOf(out)...)
+	}
 	return nil
 }
 func JSONMarshal(in interface{}) ([]byte, error) { return vsym.BlobPut(in), nil }
